@@ -54,14 +54,21 @@ def facts(src: str) -> dict:
     for need in ("t = self.t0 + step_size", "y1 = copy.deepcopy(self.y0)"):
         if need not in pre:
             raise Unsupported(f"missing before the loop: {need}")
-    if ("self.reset()" in pre and "integ.set_initial_value(self.y0)" in pre) == \
-            ("self.reset()" not in pre and "integ.set_initial_value(self.y0, self.t0)" in pre):
+    resets = "self.reset()" in pre and "integ.set_initial_value(self.y0)" in pre
+    starts_at_t0 = "self.reset()" not in pre and "integ.set_initial_value(self.y0, self.t0)" in pre
+    if resets == starts_at_t0:
         raise Unsupported("before the loop: expected `self.reset()` + `integ.set_initial_value(self.y0)` or "
                           "`integ.set_initial_value(self.y0, self.t0)` without a reset")
     loop = loops[0]
     if ast.unparse(loop.iter) != "range(max_steps)" or loop.orelse:
         raise Unsupported("loop header")
     st = [ast.unparse(s) for s in loop.body]
+    # since the repair of F-C15-3 the loop asks `integ.successful()` right after the step and stops with
+    # IntegrationFailure when the solver has given up (checked BEFORE the state is compared)
+    CHECK = "if not integ.successful():\n    return Result(IntegrationFailure())"
+    checks = len(st) == 6 and st[1] == CHECK
+    if checks:
+        st = [st[0]] + st[2:]
     if len(st) != 5:
         raise Unsupported(f"loop body has {len(st)} statements")
     if not st[0].startswith("y2 = "):
@@ -75,8 +82,15 @@ def facts(src: str) -> dict:
         raise Unsupported(st[0])
     if st[1] != f"diff = {DIFF}":
         raise Unsupported(st[1])
-    if st[2] not in (f"if {TEST}:\n    {RET}", f"if {TEST}:\n    self.t0 = t\n    self.y0 = y2.copy()\n    {RET}"):
+    if st[2] == f"if {TEST}:\n    {RET}":
+        advances = False
+    elif st[2] == f"if {TEST}:\n    self.t0 = t\n    self.y0 = y2.copy()\n    {RET}":
+        advances = True
+    else:
         raise Unsupported(st[2])
+    if advances != starts_at_t0:
+        raise Unsupported("a search that starts at the current state must advance the integrator on success, and one that "
+                          "resets must not (mixed shape)")
     if not st[3].startswith("y1 = "):
         raise Unsupported(st[3])
     rhs3 = st[3][5:]
@@ -88,7 +102,7 @@ def facts(src: str) -> dict:
         raise Unsupported(st[3])
     if st[4] != "t += step_size":
         raise Unsupported(st[4])
-    return {"copies": copies, "max_steps": max_steps, "step_size": step_size, "rebind": st[3], "integrate": st[0]}
+    return {"copies": copies, "checks": checks, "continues": starts_at_t0, "max_steps": max_steps, "step_size": step_size, "rebind": st[3], "integrate": st[0]}
 
 
 def render(f: dict) -> str:
@@ -99,6 +113,10 @@ def render(f: dict) -> str:
         + ("y1 holds an array of its own" if f["copies"] else "y1 is rebound to the integrator's own buffer")
         + " -/\n"
         f"def copies : Bool := {'true' if f['copies'] else 'false'}\n"
+        "/-- the loop stops with IntegrationFailure when `integ.successful()` is false after a step -/\n"
+        f"def checks : Bool := {'true' if f['checks'] else 'false'}\n"
+        "/-- the search starts at the integrator's current (t0, y0) and advances it on success (no `self.reset()`) -/\n"
+        f"def continues : Bool := {'true' if f['continues'] else 'false'}\n"
         f"def maxSteps : Nat := {f['max_steps']}\n"
         f"def stepSize : Nat := {f['step_size']}\n"
         "end Mxl.C15.Gen\n"
@@ -120,7 +138,7 @@ def generate(repo: Path, outdir: Path) -> None:
     except Exception as e:
         write_if_changed(out, "-- GENERATED by translate/c15.py: UNSUPPORTED source shape\nnamespace Mxl.C15.Gen\n"
                               f"/- {str(e)[:400].replace('-/', '- /')} -/\n"
-                              "def copies : Bool := false\ndef maxSteps : Nat := 0\ndef stepSize : Nat := 0\n"
+                              "def copies : Bool := false\ndef checks : Bool := false\ndef continues : Bool := false\ndef maxSteps : Nat := 0\ndef stepSize : Nat := 0\n"
                               "end Mxl.C15.Gen\n")
         raise
     write_if_changed(out, render(f))
